@@ -6,6 +6,11 @@ props = [json.loads(l) for l in open(os.path.join(V, "properties.jsonl"))]
 ids = [p["id"] for p in props]
 
 CLAIMS = {
+ "C11": dict(
+   technique="Lean 4 theorems over a hand-written k-process step model (read/write steps on shared journals, rewrite logs and the notes ref; three locking disciplines): serialisability for every schedule by invariant induction, path-function injectivity, step commutation; tied to the binary by a sync-point controller that drives real git-ai processes through every interleaving and compares with the model, plus real-serial-execution and presence oracles and a stress run",
+   text="Machine-checked proof that under the locking discipline the code implements, for any number of processes and every schedule of their read/write steps, every journal, rewrite log and the notes ref equals a serial execution in lock-acquisition order with every update applied exactly once; worktrees interfere only through the notes ref; the unlocked and append-only-locked variants provably lose or mis-credit updates. The model is re-tied to /repo on every run by exhaustive 2-process (thorough: sampled 3-process) interleaving of real processes at sync points.",
+   note="Partial w.r.t. the runtime: step atomicity at sync-point granularity, flock semantics, git's ref handling and the 30 s lock timeout (fail-open) are assumed; interleavings inside one git command are only stress-tested. Checkpoint-vs-commit races in the same worktree are outside the property. Fixed in /repo: unlocked read-modify-write of checkpoints.jsonl / rewrite_log and unserialised notes writes (d1c0a883).",
+   ref="DESIGN.md §8 C11"),
  "C18": dict(
    technique="Lean 4 theorems over hand-written executable models of parse_git_cli_args/to_invocation_vec/parse_alias_tokens/resolve_alias_impl with option tables extracted from the Rust source on every run, a reference model of git's grammar/split_cmdline/alias loop, in-process correspondence + independent oracles, and an end-to-end recording git stand-in",
    text="Machine-checked proof, for every argument vector, that the reconstruction is the identity when no meta option precedes the command; that git-ai's command split equals git's (or is 'no command') whenever git finds a command, so an option value is never the command; that the alias tokenizer simulates git's split_cmdline (exact relation), resolution terminates and returns None exactly for cycles/shell/unterminated quotes; and that, for clean alias tables, the expanded argv equals what git's own alias loop executes. Help/version normalisation proved equal to git's in-place conversion on a stated region, with decide-witnesses outside it.",
